@@ -100,6 +100,27 @@ def suspicious_forms(src):
             for arg in re.findall(r"\.(?:saturating_sub|wrapping_sub|checked_sub)\((.*?)\);", lb) + re.findall(r"bytes_held -= (.*?);", lb):
                 if "front" not in arg:
                     sus.append("ReplayRing::push: the eviction does not subtract the evicted chunk's own wire length")
+    # third audit pass (class s): a timer / sleep / retry arm inside TransferControl or the ring that is not there
+    # today (the only time arithmetic today is `deadline - now` / `Instant::now() + timeout` in the two waits)
+    for blk, who in ((tc, "TransferControl"), (ring, "ReplayRing")):
+        if re.search(r"Duration::from_|thread::sleep\s*\(|\.elapsed\s*\(\)|duration_since\s*\(|\.checked_duration_since", blk):
+            sus.append(f"{who}: a duration literal / sleep / elapsed-time test appears in its methods (an internal timer arm)")
+    for name in ("wait_for_credit", "wait_for_reconnect"):
+        b = body(tc, name)
+        if b and (len(re.findall(r"wait_timeout\(", b)) != 1 or re.search(r"wait_timeout\([^;]*\.(min|max)\(", b) or re.search(r"\.wait\(", b)):
+            sus.append(f"{name}: the park is not the single `wait_timeout(guard, deadline - now)`")
+    # (n) the stored cancel reason is written by `cancel` alone (the constructor initialises it): any other
+    # method of TransferControl, public or private, that assigns / takes / replaces it is a second way to cancel
+    for mfn in re.finditer(r"\bfn\s+(\w+)", tc):
+        name = mfn.group(1)
+        if name in ("cancel", "with_replay_capacity"):
+            continue
+        try:
+            fb = _norm(fn_body(tc, name, mfn.start()))
+        except Exception:
+            continue
+        if re.search(r"\.cancelled = |\.cancelled\.(take|replace|insert|get_or_insert\w*)\(|cancelled: (Some|None)", fb):
+            sus.append(f"TransferControl::{name} writes the stored cancel reason (only `cancel` does today)")
     # shapes found in the second audit pass (classes g–m)
     if re.search(r"\btry_lock\s*\(", tc):
         sus.append("TransferControl: a method uses try_lock (an observer that gives up under contention reports a stale state)")
